@@ -287,6 +287,8 @@ pub struct World {
     pub bands: BTreeMap<u32, BandState>,
     /// Highest band id ever seen (ids must keep increasing).
     pub max_id_seen: Option<u32>,
+    /// The source tree at every backup attempt so far (complete or interrupted).
+    pub backed_up: Vec<Tree>,
 }
 
 #[derive(Debug)]
@@ -320,6 +322,33 @@ impl World {
             tree: initial.clone(),
             bands: BTreeMap::new(),
             max_id_seen: None,
+            backed_up: vec![],
+        }
+    }
+
+    /// The documented unchanged-file heuristic is (kind, mtime, size): a file whose content
+    /// differs from what some earlier backup attempt saw at the same path, but whose size
+    /// and mtime are both the same as then, is outside what conserve promises to notice.
+    /// Such coincidences (e.g. modify -> backup -> touch -> modify back to the old mtime)
+    /// are removed from the model by moving the mtime on by whole seconds.
+    pub fn keep_changes_visible(&mut self) {
+        let paths: Vec<String> = self.tree.0.keys().cloned().collect();
+        for p in paths {
+            loop {
+                let n = &self.tree.0[&p];
+                let Kind::File { pool, len } = n.kind else { break };
+                let (ms, mns) = (n.meta.mtime_s, n.meta.mtime_ns);
+                let clash = self.backed_up.iter().any(|t| match t.0.get(&p) {
+                    Some(Node { kind: Kind::File { pool: op, len: ol }, meta }) => {
+                        *ol == len && (meta.mtime_s, meta.mtime_ns) == (ms, mns) && *op != pool && len > 0
+                    }
+                    _ => false,
+                });
+                if !clash {
+                    break;
+                }
+                self.tree.0.get_mut(&p).unwrap().meta.mtime_s += 1;
+            }
         }
     }
 
@@ -368,6 +397,7 @@ impl World {
                 for e in edits {
                     apply_edit(&mut self.tree, e);
                 }
+                self.keep_changes_visible();
                 self.tree.check_invariant();
                 tree::rematerialise(&old, &self.tree, &self.src);
                 StepKind::Mutated
@@ -392,6 +422,7 @@ impl World {
     }
 
     fn do_backup(&mut self, opts: Opts, plan: Plan) -> StepKind {
+        self.backed_up.push(self.tree.clone());
         let before_ids = self.band_ids_on_disk();
         let ctl = Ctl::new(&self.arch, plan);
         let hook: Hook = Some(ctl.clone() as Arc<dyn conserve::transport::verif::Interceptor>);
